@@ -264,6 +264,27 @@ def gen_cases(prop, u, seed, tier, probe=None):
             for name, data in variants:
                 for l in ['full', 'mem', 'mmap', 'map']:
                     cs.add('leak %d %s %d %s' % (i, l, reps, data), kind='leak', ti=i, val=v, loader=l, variant=name, reps=reps, family='leak-' + name.rstrip('0123456789'))
+    elif prop == 'C04':
+        n = len(u.types)
+        vals = {}
+        for i, t in enumerate(u.types):
+            vs = values_for(t, rng, 2)
+            vals[i] = vs[0] if vs else None
+            cs.add('feed %d' % i, kind='feed', ti=i, family='feed')
+            cs.add('hash %d' % i, kind='hash', ti=i, family='hash')
+        # near-miss pairs, both directions
+        for (a, b, kind) in u.mutant_pairs:
+            for (x, y) in ((a, b), (b, a)):
+                if vals.get(x) is None: continue
+                cs.add('xdeser %d %d %s' % (x, y, vals[x]), kind='xdeser', ti=x, tj=y, val=vals[x], family='near-miss:' + kind)
+        # arbitrary ordered pairs
+        idx = list(range(n))
+        pairs = [(a, b) for a in idx for b in idx if a != b]
+        if quick and len(pairs) > 6000:
+            pairs = rng.sample(pairs, 6000)
+        for (a, b) in pairs:
+            if vals.get(a) is None: continue
+            cs.add('xdeser %d %d %s' % (a, b, vals[a]), kind='xdeser', ti=a, tj=b, val=vals[a], family='pair')
     elif prop == 'C08':
         loaders = ['full', 'mem', 'mmap', 'map']
         for i, t in enumerate(u.types):
